@@ -73,6 +73,7 @@ class _O:
 
     def set_initial_value(self, y, t=0.0):
         self.y0 = list(y)
+        self.o.start = list(y)  # where the search really started (the declared start, or the state an earlier simulation reached)
         self.buf = np.array(list(y), dtype=object if self.o.symbolic else float)
         return self
 
@@ -206,6 +207,22 @@ class Steady(Scenario):
         if self.earlier:
             with ctx.impl("earlier simulate"):
                 sim.simulate(ctx.real("t_prev_pos") if False else 3.0, steps=1)
+            # the search may start from the declared start or continue from the state reached: the assumptions that bound the
+            # loop (and define "no steady state") are made for the reached state as well
+            reached = [sim.variables[-1][p].iloc[-1] for p in pools]
+            if self.drift:
+                if self.rel:
+                    for v, ci in zip(reached, c):
+                        ctx.assume(v > 0)
+                        ctx.assume(ci >= tol * (v + 1000 * ci))
+            else:
+                for v, s_ in zip(reached, ystar):
+                    if self.rel and not self.zero_start:
+                        ctx.assume(v > 0)
+                        ctx.assume(absval(v - s_) * 2 < s_)
+                        ctx.assume(absval(v - s_) * 2 < bound * s_)
+                    else:
+                        ctx.assume(absval(v - s_) * self.dim < bound)
         if self.zero_start:
             # dividing by the empty pool: any failure is acceptable, a reported success must still be a steady state
             try:
@@ -249,7 +266,7 @@ class Steady(Scenario):
             f = 1
             for _ in range(n - 1):
                 f = f * stub.e
-            prev = [s + (v - s) * f for v, s in zip(y0, ystar)]
+            prev = [s + (v - s) * f for v, s in zip(getattr(stub, "start", None) or y0, ystar)]
         self.check_state(ctx, state, ystar, tol, prev, pools, k)
         with ctx.impl("fluxes"):
             fl = simres.fluxes
@@ -276,8 +293,11 @@ def scenarios(tier, seed):
         for rel in (False, True):
             for user in (False, True):
                 for earlier in (False, True):
+                    if rel and earlier and tier == "quick":
+                        continue  # relative norm from an uninterpreted reached state: minutes per scenario, thorough tier only
                     for K in Ks:
-                        scs.append(Steady(1, rel, user, earlier, alias, K))
+                        # continuing an earlier simulation starts from an uninterpreted state: concrete contraction factor in the quick tier
+                        scs.append(Steady(1, rel, user, earlier, alias, K, e_conc=0.5 if (earlier and tier == "quick") else None))
         for e in (0.5, 0.25):
             scs.append(Steady(2, False, False, False, alias, 3, e_conc=e))
         if tier != "quick":
@@ -285,7 +305,7 @@ def scenarios(tier, seed):
         scs.append(Steady(1, False, False, False, alias, 3, via="worker", e_conc=0.5))
         scs.append(Steady(1, True, False, False, alias, 3, via="worker", e_conc=0.5))
         scs.append(Steady(1, True, True, False, alias, 3, e_conc=0.5, zero_start=True))
-        scs.append(Steady(1, True, True, True, alias, 3, e_conc=0.25, zero_start=True))
+        scs.append(Steady(1, True, True, False, alias, 3, e_conc=0.25, zero_start=True))
         # no steady state
         for rel in (False, True):
             for earlier in (False, True):
